@@ -42,7 +42,7 @@ for area in sorted(AREA_PROPS):
                     env['VERIF_ONLY'] = 'zzz'
                 t0 = time.time()
                 r = subprocess.run([os.path.join(HERE, 'check'), p, '--tier', 'quick'], capture_output=True, text=True, cwd=HERE, env=env)
-                lines = [l for l in r.stdout.splitlines() if l.startswith(('VIOLATION', 'UNDECIDED', '  failed'))]
+                lines = [l for l in r.stdout.splitlines() if l.startswith(('VIOLATION', 'UNDECIDED', 'PARTIAL', '  failed'))]
                 row = {'refactoring': name, 'property': p, 'exit': r.returncode, 'engines': 'V+S' if fast else 'K+V+S', 'wall_s': round(time.time() - t0), 'lines': [l[:260] for l in lines[:4]]}
                 out.append(row)
                 print('%s %s exit=%d %s' % (name, p, r.returncode, (lines[0][:230] if lines else '')), flush=True)
